@@ -110,9 +110,10 @@ impl<'a> ToRange for Span<'a> {
 
     fn to_sync_point(&self) -> Range<usize> {
         let s: &str = self.fragment();
+        // byte offset (not char index) of the sync point
         let sync = s
-            .chars()
-            .find_position(|ch| matches!(ch, '|' | ')' | ']' | '}'));
+            .char_indices()
+            .find(|(_, ch)| matches!(ch, '|' | ')' | ']' | '}'));
 
         let end = sync.map(|pair| pair.0).unwrap_or(s.len());
 
@@ -124,9 +125,10 @@ impl<'a> ToRange for Span<'a> {
 
     fn to_whitespace(&self) -> Range<usize> {
         let s: &str = self.fragment();
+        // byte offset (not char index) of the whitespace
         let sync = s
-            .chars()
-            .find_position(|ch| matches!(ch, ' ' | '\t' | '\n'));
+            .char_indices()
+            .find(|(_, ch)| matches!(ch, ' ' | '\t' | '\n'));
 
         let end = sync.map(|pair| pair.0).unwrap_or(s.len());
 
@@ -328,7 +330,13 @@ where
                         return Ok((remaining, o2));
                     }
 
-                    remaining = remaining.slice(1..);
+                    // skip one whole character, which may be several bytes long
+                    let skip = remaining
+                        .fragment()
+                        .chars()
+                        .next()
+                        .map_or(1, |ch| ch.len_utf8());
+                    remaining = remaining.slice(skip..);
                     let end = remaining.location_offset();
                     let res = third.parse(remaining);
 
